@@ -245,6 +245,40 @@ def run(ctx):
             d = diff_keys(before, deep_snap(m.get_params(deep=True)))
             if d:
                 ctx.violation(kind, "param_changed", f"get_params differs after query/update at {d[:3]}", {"params": p}, what=f"{kind}: query/update changed constructor parameters {d[:3]}")
+    # ---- classifier-based stream strategies in every configuration of the C03 registry (explicit managers with their own / another /
+    #      no budget, non-default dictionaries): get_params (with contents) stable over query / update histories ----
+    from . import stream_extra as SX
+    for name, fac in SX._registry().items():
+        for h in range(2 if ctx.is_quick else 8):
+            seed = int(rng.integers(0, 1000))
+            budget = float(rng.choice([0.1, 0.3]))
+            try:
+                clf, Xd, yd = SX._clf(seed)
+                qs = fac(seed, budget)
+                before = deep_snap(qs.get_params(deep=True))
+                changed = None
+                for step in range(6):
+                    cand = rng.integers(0, 4, size=(int(rng.integers(1, 5)), 2)).astype(float)
+                    if step % 2 == 0 or step == 1:
+                        idx, ut = SX._query(name, qs, cand, clf, Xd, yd)
+                        d = diff_keys(before, deep_snap(qs.get_params(deep=True)))
+                        if d:
+                            changed = ("query", d)
+                            break
+                    else:
+                        idx, ut = [], np.zeros(len(cand))
+                    SX._update(name, qs, cand, idx, ut)
+                    d = diff_keys(before, deep_snap(qs.get_params(deep=True)))
+                    if d:
+                        changed = ("update", d)
+                        break
+            except Exception as e:
+                ctx.hist[f"stream_strategy_exception:{name}:{err_class(e)}"] += 1
+                continue
+            ctx.count("stream_strategy_params:" + name)
+            if changed:
+                ctx.violation(name, "param_changed", f"get_params differs after {changed[0]} at {changed[1][:3]}", {"strategy": name, "seed": seed, "budget": budget},
+                              what=f"{name}.{changed[0]} changed what get_params reports ({changed[1][:3]})")
     ctx.extra["exhaustive"] = False
 
 
